@@ -238,6 +238,11 @@ func (P *Prog) lemmaBefore(a, b *Lemma) bool {
 func (P *Prog) pureAxioms() error {
 	for _, k := range sortedKeys(P.pures) {
 		pf := P.pures[k]
+		if pf.fc.MathInts != "" && len(pf.fc.Ensures) > 0 && pf.fc.Trusted == "" {
+			// the axiom of a pure function holds for ALL arguments; a postcondition proved only for executions
+			// without overflow, stated together with the fixed-width range of the result, can be contradictory
+			return fmt.Errorf("%s: a pure function cannot be verified under mathints (its axiom would quantify over overflowing inputs); use noovf and explicit bounds", k)
+		}
 		env := &Env{P: P, pkg: pf.pkg, bound: map[string]Val{}}
 		if pf.fc.Kind != "func" && pf.fc.Pkg != "" {
 			env.pkg = P.pkgOf(pf.fc.Pkg)
